@@ -156,3 +156,12 @@ PROPS['C14'] = dict(theorems=['append_exactly_once', 'remote_delivers_local_only
     level_text='Theorems (node model): Distribute appends the message at most once per node, exactly once per destination when it reports success, to no node outside the destination set, visiting every destination whatever fails; each node writes a log entry only to registered recipients. Tied to the Go code by 2-3 node scripts over in-process gRPC with every subset of other nodes unreachable.',
     level_note=_E2E_NOTE,
     families=[_broker([('cluster', 40, 500)])], rule='cluster: 2-3 nodes, 0-2 subscribers per node with filters t/#, t/+, u, publisher on any node, every subset of other nodes unreachable, topics t/a, u, v.')
+
+PROPS['C15'] = dict(
+    theorems=['consumer_invariant', 'at_least_once', 'bounded_replay', 'in_order_per_run', 'truncate_safe'],
+    families=[dict(name='crash', corr='Consumer', runs=[('random', 36, 400)], par=8)],
+    level_text='Theorems (consumer model): over every sequence of appends, process starts, micro-steps (callback / store offset / maybe truncate) and crashes between any two micro-steps, every offset up to the stored one has been handed to the callback, nothing beyond stored+1 ever has (so a restart replays at most the last recorded entry and the one in progress), offsets within a run are consecutive, and the truncation base never exceeds the stored offset (and stays 300 below it). Tied to the Go code by child processes running the real Consume on a real commit log, killed with SIGKILL inside the callback of chosen offsets (near batch, segment and truncation edges) or stopped at the end, over 2-4 rounds: offsets handed over, state file and lowest readable segment are compared with the model.',
+    level_note='PARTIAL: the commit-log library and the kernel are assumed, not modelled: reads from a sought offset yield consecutive records, TruncateBefore removes only whole 500-entry segments below the segment of its argument, a completed 8-byte store into the shared mapping survives SIGKILL. The harness kills only inside the callback (the other crash points of the theorem are not exercised on the real code). Trusted: Coq kernel + vm_compute; harness, emitter, evaluator.',
+    rule='random: 2-4 rounds; per round 1-35 / ~500 / ~2000 appended entries (by case index mod 3), then a child that is killed inside the callback of an offset chosen uniformly or next to an edge (10, 20, 500, 1000, 1500, 2000, 3000), or stopped after the last entry. Non-trivial: at least two rounds.',
+    assumptions=['commit log: consecutive records from a sought offset; whole-segment truncation; mmap store survives SIGKILL'],
+)
